@@ -7,7 +7,7 @@ import ast
 from ..report import Cx, Ob, describe, obligation
 from ..rules import API, CONV, CURIE_SIDE, URI_SIDE, Prov, _container_fields, fewer_than_two, guard_atoms, pair_compare_cover, construct_of_plain_strings, where
 from ..summ import Ctx, describe_path
-from ..terms import callee_name, is_const, op, show, subterms
+from ..terms import callee_name, is_const, op, show, substitute, subterms
 
 describe(
     "C04",
@@ -518,6 +518,78 @@ def d2(cx: Cx, ob: Ob) -> None:
         check_detector(cx, ob, cls, dets[cls][0], side)
 
 
+def _fold_term(cx: Cx, t):
+    """Fold literal structure: a module constant that is a literal table, a subscript of one by a literal key, a
+    comparison of two literals."""
+    from ..terms import rewrite
+
+    class _No:
+        pass
+
+    def val(x):
+        if op(x) == "const":
+            return x[1]
+        if op(x) in ("tuple", "list"):
+            vs = [val(y) for y in x[1]]
+            return _No if any(v is _No for v in vs) else tuple(vs)
+        if op(x) == "gconst":
+            mod = cx.model.modules.get(x[1])
+            try:
+                v_ = cx.model.const_value(mod, x[2]) if mod is not None else _No
+            except Exception:  # noqa: BLE001
+                return _No
+            return v_ if isinstance(v_, (dict, tuple, list, str, int, bool, type(None))) else _No
+        return _No
+
+    def lift(v_):
+        if isinstance(v_, (str, int, bool, type(None))):
+            return ("const", v_)
+        if isinstance(v_, (tuple, list)):
+            return ("tuple", tuple(lift(y) for y in v_))
+        return None
+
+    def f(x):
+        if op(x) == "item":
+            base, k = val(x[1]), val(x[2])
+            if base is not _No and k is not _No:
+                try:
+                    r = lift(base[k])
+                except Exception:  # noqa: BLE001
+                    r = None
+                if r is not None:
+                    return r
+        if op(x) == "cmp" and x[1] in ("==", "!=") and op(x[2]) == "const" and op(x[3]) == "const":
+            return ("const", (x[2][1] == x[3][1]) == (x[1] == "=="))
+        return x
+
+    return rewrite(t, f)
+
+
+def _for_field(cx: Cx, m, outcomes, info, field: str):
+    """The (term, ctx) outcomes of a validator shared by several fields, as it runs for ``field``: paths whose guards
+    contradict ``info.field_name == field`` are dropped, the others have the name folded in."""
+    from types import SimpleNamespace
+
+    mp = {("attr", info, "field_name"): ("const", field)}
+    out = []
+    for t, ctx in outcomes:
+        feasible, gs = True, []
+        for g in ctx.guards:
+            if g.kind != "guard":
+                gs.append(g)
+                continue
+            a = _fold_term(cx, substitute(g.a, mp))
+            if op(a) == "const" and isinstance(a[1], bool):
+                if a[1] != g.b:
+                    feasible = False
+                    break
+                continue
+            gs.append(SimpleNamespace(kind="guard", a=a, b=g.b, line=g.line))
+        if feasible:
+            out.append((_fold_term(cx, substitute(t, mp)) if isinstance(t, tuple) else t, SimpleNamespace(guards=tuple(gs), path=ctx.path, loops=ctx.loops)))
+    return out
+
+
 @obligation("C04-D3", "Record validators: the validator of each synonym list reads the matching canonical field and raises on membership; every Record is built through the validating constructor", floor=3)
 def d3(cx: Cx, ob: Ob) -> None:
     rec = cx.model.cls(f"{API}.Record", ob.id)
@@ -569,6 +641,10 @@ def d3(cx: Cx, ob: Ob) -> None:
         ob.site(f"{m.where} {m.qualname}", f"validator of {f}")
         v = ("param", m.params[1].name) if len(m.params) > 1 else None
         raises = s.raises()
+        if len(m.params) > 2:
+            # read as pydantic runs it for THIS field (one validator may be decorated for several):
+            # info.field_name is the field's name; tables keyed by it are looked up
+            raises = _for_field(cx, m, raises, ("param", m.params[2].name), f)
         if not raises:
             ob.violate(m.qualname, m.where, f"validator of `{f}` never raises", detail=f"never-raises:{f}")
             continue
